@@ -350,6 +350,83 @@ def _kind_of(w, rid, token):
     return "I"
 
 
+# ---------------------------------------------------------------------------
+# every typed request helper inherits the matching rule (discovered, not listed)
+# ---------------------------------------------------------------------------
+RUN_HELPER = "vf.checks.c01:run_helper"
+# results the type-directed generator cannot derive from the helper's return annotation
+RESULT_BY_METHOD = {"completion/complete": {"completion": {"values": ["a", "b"], "total": 2, "hasMore": False}}}
+PREFIXES = [[], ["Q"], ["Qn"], ["O"], ["Oe"], ["N"], ["B"], ["P-"], ["Q", "O", "N", "B"], ["N", "N", "Qn", "Oe"]]
+
+
+def run_helper(ctl: explorer.Ctl, cfg: Dict[str, Any]) -> Dict[str, Any]:
+    """Call one discovered send_* helper; the scripted peer answers its request with
+    the distractor prefix followed by a type-correct successful result.  The helper
+    must return exactly what it returns when there is no distractor at all."""
+    from chuk_mcp.protocol.messages.json_rpc_message import parse_message
+    from .. import helpers_drive as hd
+
+    func = hd.resolve(cfg["helper"])
+    prof = hd.Profile(rich=False)
+    kwargs = hd.build_kwargs(func, prof)
+
+    def to_obj(wire):
+        if isinstance(wire, list):
+            return [parse_message(m) for m in wire]
+        return parse_message(wire)
+
+    def make_script(prefix):
+        def script(req, n):
+            rid = req["id"]
+            out = [to_obj(build(k, rid, None, i)) for i, k in enumerate(prefix)]
+            result = RESULT_BY_METHOD.get(req.get("method")) or hd.result_for(func, req)
+            out.append(parse_message({"jsonrpc": "2.0", "id": rid, "result": result}))
+            return out
+        return script
+
+    base = hd.drive(func, dict(kwargs), make_script([]))
+    got = hd.drive(func, dict(kwargs), make_script(cfg["prefix"]))
+
+    def summarise(o):
+        if o.get("outcome") == "returned":
+            v = o["value"]
+            if hasattr(v, "model_dump"):
+                v = v.model_dump(by_alias=True, exclude_none=True)
+            return ["returned", sched.jsonable(v)]
+        if o.get("outcome") == "raised":
+            return ["raised", type(o["exc"]).__name__, str(o["exc"])[:120]]
+        return [str(o.get("outcome"))]
+
+    a, b = summarise(base), summarise(got)
+    viol = []
+    short = cfg["helper"].split(":")[-1]
+    if a[0] != "returned":
+        raise core.HarnessError(f"helper {cfg['helper']} cannot be driven: with a plain successful answer it gives {a} "
+                                "(add a result to RESULT_BY_METHOD)")
+    elif a != b:
+        cls = "helper-returned-non-response" if b[0] == "returned" else "helper-disturbed-by-distractors"
+        viol.append({"sig": {"class": cls, "first_distractor": cfg["prefix"][0] if cfg["prefix"] else None},
+                     "msg": f"{cfg['helper']} prefix={cfg['prefix']}: got {b}, without distractors {a}"})
+    if got.get("requests") != 1:
+        viol.append({"sig": {"class": "helper-request-count"}, "msg": f"{cfg['helper']}: {got.get('requests')} requests written"})
+    return {"outcome": b[0], "helper": short, "prefix": cfg["prefix"], "value": b, "violations": viol}
+
+
+def helper_configs():
+    from .. import helpers_drive as hd
+
+    disc = hd.discover()
+    names = [h["name"] for h in disc["helpers"] if h["kind"] == hd.REQUEST]
+    callable_names, uncallable = [], []
+    for n in names:
+        try:
+            hd.build_kwargs(hd.resolve(n), hd.Profile(rich=False))
+            callable_names.append(n)
+        except Exception as e:  # noqa: BLE001
+            uncallable.append(f"{n}: {e!r}"[:200])
+    return [{"helper": n, "prefix": p} for n in callable_names for p in PREFIXES], callable_names, uncallable
+
+
 def configs_for(tier: str):
     full = []
     # depth 1: full product of timeouts, id shapes, params shapes, callback
@@ -382,6 +459,13 @@ def run(tier: str, only=None) -> core.Result:
     bound = 4 if tier == "quick" else 5
     out = explorer.explore(RUN, deeper, bound=bound)
     sched.absorb(res, f"L{deeper[0]['L']}-deviation-bound-{bound}", RUN, out, deeper)
+    hcfgs, hnames, uncallable = helper_configs()
+    for u in uncallable:
+        res.harness_errors.append(f"[helpers] discovered request helper cannot be driven: {u}")
+    if hcfgs:
+        out = explorer.explore(RUN_HELPER, hcfgs)
+        sched.absorb(res, "typed-helpers-x-distractor-prefixes", RUN_HELPER, out, hcfgs, min_outcomes=1)
+        res.coverage["helpers_discovered"] = [n.split(":")[-1] for n in hnames]
     if tier == "thorough":
         l3 = [dict(c, L=3, rich=False) for c in deep]
         out = explorer.explore(RUN, l3)
